@@ -386,6 +386,11 @@ def run(ctx, report):
                          'different candidates' % (label, imm_[1] if isinstance(imm_, tuple) else type(imm_).__name__, want), where(ctx.mod('ia32_arch'), asn8),
                          witness="asm('imul ax, [ebx], -2') and asm('imul ax, [ebx], 0xFFFE') are disjoint")
 
+    R9 = report.rule('C19.D9', 'AT&T test / xchg with the memory operand written first assemble like their Intel transliteration: mnemo_from_att, evaluated on the operand lists the AT&T '
+                     'parser delivers, hands the caller\'s list back with the memory operand first', floor=8)
+    from .c09 import liberal_swap_rule
+    liberal_swap_rule(ctx, R9)
+
 
 def imm_typing_rule(ctx, R):
     """check_imm_size offers the sign-extended imm8 form of a 16-bit operand only to an immediate that carries its width (imm.size == 16, which
